@@ -120,9 +120,10 @@ def regex(rng, n):
     for _ in range(n):
         re_ = rng.choice(REGEXES)
         argv = ["-e", re_, "-f", gen_bounds(rng)]
-        if rng.random() < 0.5: argv += ["-r", rng.choice(["/", "", "--", "$0", "$1x", "é", "-", "${0}"])]
+        dense = rng.random() < 0.4
+        if rng.random() < (0.8 if dense else 0.5): argv += ["-r", rng.choice(["/", "", "--", "$0", "$1x", "é", "-", "${0}", ",", "a", "x", " "])]
         for f in ("-g", "-p", "-s", "-m", "-j", "-z"):
-            if rng.random() < 0.15: argv.append(f)
+            if rng.random() < ((0.45 if f in ("-g", "-p") else 0.2) if dense else 0.15): argv.append(f)
         if rng.random() < 0.3: argv += ["-t", rng.choice("lrb")]
         if rng.random() < 0.15 and "-r" not in argv: argv.append("--json")
         if rng.random() < 0.2: argv += ["--fallback-oob", rng.choice(["", "G", "x-y"])]
@@ -741,6 +742,7 @@ def c19(rng, count, full=False):
     out = []
     modes = [None, ("-f", "1,2"), ("-c", "1,2"), ("-b", "1,2"), ("-l", "1,2")]
     stdin = b"a-b-c\nd-e-f\n"
+    stdins = [stdin, stdin, b"\n\nx-y-z\n", b"", b"--\n-\n", b"\n"]
     def build(mode, mask, variant):
         argv = []
         if mode:
@@ -796,7 +798,11 @@ def c19(rng, count, full=False):
                 out.append(Case(argv, stdin, tags={"grp": g, "role": "order1"}))
                 out.append(Case(argv2, stdin, tags={"grp": g, "role": "order2"}))
             else:
-                out.append(Case(argv, stdin))
+                out.append(Case(argv, rng.choice(stdins)))
+    # "fails on the first record", whatever that record is
+    for sin in stdins:
+        for extra in ([], ["-j"], ["-p"], ["-j", "-p"], ["-p", "-t", "b"], ["-p", "-s"], ["-p", "-r", "/"], ["-j", "--json"], ["-g"]):
+            out.append(Case(["-e", "-", "-f", "1"] + extra, sin))
     return out
 
 
@@ -932,4 +938,53 @@ def c05_big(rng):
             t = {"grp": g, "nomodel": True}
             out.append(Case(["-l", fwd] + opts, data, tags=dict(t, role="forward")))
             out.append(Case(["-l", buf] + opts, data, tags=dict(t, role="buffered")))
+    return out
+
+
+def small_scope(rng, maxlen=4, sample=None):
+    """small-scope exhaustive block for the general path: every record over {a, b, -} up to a
+    length, self-overlapping and plain delimiters, trims / -g / -p / -s, a few bounds"""
+    import itertools
+    out = []
+    recs = [bytes(t) for L in range(0, maxlen + 1) for t in itertools.product(b"ab-", repeat=L)]
+    delims = ["-", "--", "ab", "aba", "aa"]
+    optsets = [[], ["-t", "l"], ["-t", "r"], ["-t", "b"], ["-g"], ["-p"], ["-g", "-p"], ["-s"], ["-t", "b", "-g"], ["-t", "b", "-p"],
+               ["-p", "-r", "a"], ["-g", "-r", "-"]]
+    bounds = ["1:", "2", "-1", "1,3=F", "2:-1"]
+    combos = [(d, o, b) for d in delims for o in optsets for b in bounds]
+    for r in recs:
+        for (d, o, b) in (combos if sample is None else rng.sample(combos, sample)):
+            out.append(Case(["-d", d, "-f", b] + o, r + b"\n"))
+    return out
+
+
+def c08_big(rng):
+    """--json with fields longer than the 64 KiB buffers, multi-byte characters straddling the
+    boundary; the expected array is computed here from the statement"""
+    out = []
+    for pad in (BUF - 2, BUF - 1, BUF, BUF + 1):
+        f2 = "x" * pad + "é€𝄞" + "y" * 10 + "\"" + "z"
+        rec1 = "k-" + f2 + "-t"
+        data = (rec1 + "\n" + "p-q-r\n").encode()
+        for b, exp in (("2", [[f2], ["q"]]), ("1:", [["k", f2, "t"], ["p", "q", "r"]]), ("3,2", [["t", f2], ["r", "q"]])):
+            out.append(Case(["--json", "-d", "-", "-f", b], data, tags={"nomodel": True, "expect_json": exp}))
+    return out
+
+
+def c06_big(rng):
+    """byte mode on inputs larger than every buffer in the way (64 KiB BufReader/BufWriter, the
+    1 KiB LineWriter behind stdout); expected bytes computed here from the statement"""
+    out = []
+    for n in (BUF - 1, BUF, BUF + 1, 70000, 200000):
+        base = bytearray(rng.choice(b"abc\0\xff ") for _ in range(n))
+        for lfpos in (None, n // 2, n - 2000, n - 10):
+            data = bytearray(base)
+            if lfpos is not None and 0 <= lfpos < n:
+                data[lfpos] = 10
+            data = bytes(data)
+            for b, exp in (("1:", data), ("-66000:", data[-66000:] if n >= 66000 else None), ("2:-2", data[1:-1]),
+                           ("{1:}|{1}", data + b"|" + data[:1]), ("%d:,1:%d" % (n - 5, n - 5), data[n - 6:] + data[:n - 5])):
+                if exp is None:
+                    continue
+                out.append(Case(["-b", b], data, tags={"nomodel": True, "expect": exp}))
     return out
